@@ -457,3 +457,35 @@ package keeper
 //@   invariant #1 others: forall p:Str :: !old(has(active, height, p)) ==> !has(active, height, p)
 //@   invariant #1 qframe: forall q:Int :: forall p:Str :: q != height ==> has(active, q, p) == old(has(active, q, p))
 //@ end
+
+// AdjustPool: only the creator of an editable pool that has not ended; the new end height is start + the minimum over
+// ALL rules of floor(available budget / reward per block) (running-minimum invariant of the last loop), and the pool
+// is re-queued at exactly that height.
+//@ func Keeper.AdjustPool
+//@   property C05, C06, C13
+//@   returns err
+//@   requires rulesWF && rulesOK && height >= 0 && poolsWF
+//@   requires forall p:Str :: forall d:Str :: has(ruleF, p, d) ==> RULE(p, d).RewardPerBlock > 0
+//@   let pl = POOL(poolID)
+//@   uses ridxRange(POOL(poolID).Rules, "")
+//@   uses ridxHit(POOL(poolID).Rules, 0)
+//@   modifies active, ruleF, pools, bal
+//@   invariant #1 idx:  rangeindex >= 0 - 1 && rangeindex < len(rules)
+//@   invariant #1 frame: active == old(active) && pools == set(old(pools), pool.Id, with(pool, "Rules", zero(pool.Rules)))
+//@   invariant #2 idx:  rangeindex >= 0 - 1 && rangeindex < len(rules)
+//@   invariant #2 frame: active == old(active) && pools == set(old(pools), pool.Id, with(pool, "Rules", zero(pool.Rules)))
+//@   invariant #3 idx:  rangeindex >= 0 - 1 && rangeindex < len(rules)
+//@   invariant #3 frame: active == old(active) && pools == set(old(pools), pool.Id, with(pool, "Rules", zero(pool.Rules)))
+//@   invariant #3 min:  forall j:Int :: 0 <= j && j <= rangeindex ==> availableHeight <= tdiv(amt(availableReward, rules[j].Reward), rules[j].RewardPerBlock)
+//@   ensures authorized: err == nil ==> old(has(pools, poolID)) && bech(creator) == pl.Creator && pl.Editable
+//@                         && (height < pl.EndHeight || (height == pl.EndHeight && old(has(active, pl.EndHeight, poolID))))
+// queue hygiene across the re-scheduling: the pool is queued at its (possibly new) end height and nowhere else
+//@   ensures requeued:   err == nil && old(activeInv) && old(has(active, pl.EndHeight, poolID)) ==> activeInv && has(active, POOL(poolID).EndHeight, poolID)
+//@   ensures others:     forall p:Str :: p != poolID ==> has(pools, p) == old(has(pools, p)) && POOL(p) == old(POOL(p))
+//@ end
+
+//@ func Keeper.SetRewardRules
+//@   inline
+//@   invariant #1 idx: rangeindex >= 0 - 1 && rangeindex < len(rules)
+//@   invariant #1 frame: active == old(active) && pools == set(old(pools), pool.Id, with(pool, "Rules", zero(pool.Rules)))
+//@ end
